@@ -258,12 +258,34 @@ class RealClient(object):
         self.loop_stop = True
 
     def wait(self, cond, timeout=15.0):
+        """True as soon as cond() holds. After `timeout` seconds the wait goes on (up to 4 x timeout) for as long as some thread of
+        this process is still moving between two looks half a second apart: on a loaded machine slow is not stuck. False only
+        when nothing moves any more (or after 4 x timeout)."""
         t0 = time.time()
         while time.time() - t0 < timeout:
             if cond():
                 return True
             time.sleep(0.002)
-        return False
+        if timeout < 3:
+            return cond()
+        from vf import probes
+
+        def snap():
+            return {n: [f[:3] for f in fr[:2]] for n, fr in probes.thread_states().items() if n != threading.current_thread().name}
+        prev = snap()
+        still = 0
+        while time.time() - t0 < 4 * timeout:
+            t1 = time.time()
+            while time.time() - t1 < 0.5:
+                if cond():
+                    return True
+                time.sleep(0.005)
+            now = snap()
+            still = still + 1 if now == prev else 0
+            prev = now
+            if still >= 2:
+                return cond()
+        return cond()
 
     def events(self, name):
         return self.probe_low.event_names().count(name)
